@@ -1276,6 +1276,7 @@ func main() {
 	r.Assume("the reference model (Go maps: version-resolved union) is correct")
 	fmt.Printf("C03: measure states=%d transitions=%d pool_states=%d | sidx states=%d transitions=%d | distinct_outcomes=%d\n",
 		st.States, st.Transitions, ps.Histories+bs.Histories, sst.States, sst.Transitions, st.DistinctOutcomes+sst.DistinctOutcomes)
+	os.RemoveAll(base) // Finish exits the process, deferred calls do not run
 	r.Finish()
 }
 
